@@ -224,6 +224,11 @@ func (n *DNet) Deliver(d *Dgram) bool {
 	}
 	n.mu.Unlock()
 	if peer != nil {
+		if n.env.Pool.Enabled {
+			if m, err := DecodeUDP(d.Data); err == nil {
+				n.env.Pool.CheckWire(m)
+			}
+		}
 		peer(d)
 		return true
 	}
@@ -304,6 +309,9 @@ func NewUDPEndpoint(e *Env, n *DNet, c UDPEndpointCfg) *UDPEndpoint {
 	}
 	if cfg.MessagePool == nil {
 		cfg.MessagePool = pool.New(0, 0)
+	}
+	if e.PoolCapacity > 0 {
+		cfg.MessagePool = pool.New(e.PoolCapacity, 2048)
 	}
 	if cfg.Ctx == nil {
 		cfg.Ctx = context.Background()
